@@ -96,6 +96,13 @@ func genET(o *Out, r *Rng, n int, tier string) {
 			o.emit("C19", "ET", itoa(s), itoa(ns), itoa(etZones[r.Intn(len(etZones))]))
 		}
 	}
+	// decode side, systematically: every pair of the edge seconds and nanoseconds (the all-zero payload included)
+	for _, sc := range etSecs {
+		for _, ns := range etNsecs {
+			p := []byte{byte(sc >> 24), byte(sc >> 16), byte(sc >> 8), byte(sc), byte(ns >> 24), byte(ns >> 16), byte(ns >> 8), byte(ns)}
+			o.emit("C19", "ETD", hx(p))
+		}
+	}
 	// through the constructors, in zones that set their clocks back and forward: around each transition
 	for _, z := range etNamedZones {
 		for _, tr := range etTransitions {
